@@ -11,13 +11,13 @@ import (
 	"math/rand"
 	"os"
 	"path/filepath"
+	"reflect"
 	"strings"
 	"sync"
 	"sync/atomic"
 
 	envoy "github.com/envoyproxy/go-control-plane/envoy/service/auth/v3"
 	"google.golang.org/protobuf/encoding/protojson"
-	"google.golang.org/protobuf/proto"
 
 	configv1 "github.com/istio-ecosystem/authservice/config/gen/go/v1"
 	oidcv1 "github.com/istio-ecosystem/authservice/config/gen/go/v1/oidc"
@@ -155,7 +155,7 @@ func newFilter(cfg *configv1.Config) (*server.ExtAuthZFilter, *atomic.Int64, err
 	calls := &atomic.Int64{}
 	jw := oidc.NewJWKSProvider(late, pool)
 	flt := server.NewExtAuthZFilter(late, pool, jw, &countingFactory{real: fac, calls: calls})
-	proto.Merge(late, cfg) // "the configuration file is loaded"
+	fillConfig(late, cfg) // "the configuration file is loaded"
 	if pr, ok := any(jw).(interface{ PreRun() error }); ok {
 		_ = pr.PreRun() // (the key provider has no serving loop to start here: these cases use static key sets)
 	}
@@ -163,6 +163,17 @@ func newFilter(cfg *configv1.Config) (*server.ExtAuthZFilter, *atomic.Int64, err
 		return nil, nil, err
 	}
 	return flt, calls, nil
+}
+
+// fillConfig makes dst the loaded configuration src member by member (as reading the file into the object does): what
+// the loader shares between chains or filters stays shared - a deep copy would quietly undo such aliasing.
+func fillConfig(dst, src *configv1.Config) {
+	d, s := reflect.ValueOf(dst).Elem(), reflect.ValueOf(src).Elem()
+	for i := 0; i < d.NumField(); i++ {
+		if d.Type().Field(i).PkgPath == "" { // exported members only (the generated bookkeeping stays dst's own)
+			d.Field(i).Set(s.Field(i))
+		}
+	}
 }
 
 func dispatchReq(path string, hdrs map[string]string) *envoy.CheckRequest {
